@@ -13,6 +13,8 @@ mod on_drop;
 mod substitution;
 
 pub mod edge_hash_map;
+#[cfg(feature = "oxidd_verif")]
+pub mod verif;
 pub use edge_hash_map::EdgeHashMap;
 pub mod num;
 pub use on_drop::*;
